@@ -45,9 +45,9 @@ func (c18) Assumptions() []string {
 }
 func (c18) NumCases(tier string, _ int64) int {
 	if tier == "thorough" {
-		return 60000
+		return 400000
 	}
-	return 5000
+	return 15000
 }
 func (c18) Exhaustive(string) bool { return false }
 func (c18) Floors(string) []runner.Floor {
